@@ -17,6 +17,35 @@ class SDecStr(Sym):
         self.t = t
 
 
+class SHexNum(Sym):
+    """hex(n) for a symbolic non-negative int n ('0x' + minimal digits), or the same without the prefix"""
+    pytype = str
+
+    def __init__(self, t, prefix):
+        self.t, self.prefix = t, prefix
+
+
+def hexnum_method(ip, h, name, args, kwargs):
+    ctx = ip.ctx
+    if name == 'zfill' and not h.prefix and isinstance(args[0], int) and args[0] % 2 == 0 and args[0] > 0:
+        w = args[0]
+        if not ctx.branch(h.t < z3.IntVal(16 ** w)):
+            raise Unsupported('hex string longer than the zfill width')
+        from . import strings
+        return strings.hex_of(ip, int_to_bytes(ip, wrap_int(h.t), w // 2, 'big'))
+    raise Unsupported('method %s on hex(<symbolic int>)' % name)
+
+
+def m_hex(ip, args, kwargs):
+    v = args[0]
+    if isinstance(v, (SInt, SBool)):
+        t = int_term(v)
+        if not ip.ctx.branch(t >= 0):
+            raise Unsupported('hex() of a negative symbolic int')
+        return SHexNum(t, True)
+    return hex(v)
+
+
 class SymRange:
     def __init__(self, start, stop):
         self.start = start
@@ -92,6 +121,11 @@ def binop(ip, op, a, b):
         return Opaque('formatted-string', str)
     if op == 'Mod' and isinstance(a, bytes):
         raise Unsupported('bytes % formatting with symbolic operands')
+    for bm in ip.reg.sym_binops:
+        try:
+            return bm(ip, op, a, b)
+        except Unsupported:
+            continue
     raise Unsupported('binary %s on %s and %s' % (op, pytype_of(a).__name__, pytype_of(b).__name__))
 
 
@@ -179,6 +213,10 @@ def contains(ip, container, item):
 
 def getitem(ip, obj, idx):
     ctx = ip.ctx
+    if isinstance(obj, SHexNum):
+        if isinstance(idx, slice) and idx.start == 2 and idx.stop is None and idx.step is None and obj.prefix:
+            return SHexNum(obj.t, False)
+        raise Unsupported('subscript on hex(<symbolic int>)')
     if isinstance(obj, SList):
         return slist_getitem(ip, obj, idx)
     if isinstance(obj, (SBytes, SStr)) or (isinstance(obj, (bytes, str)) and not is_concrete(idx)):
@@ -457,22 +495,49 @@ class HashObj(Sym):
         self.name, self.data = name, data
 
 
-def uf_bytes(ctx, name, args, outlen):
-    """uninterpreted function returning `outlen` bytes (DESIGN §2.7); arguments: bytes / ints"""
-    sorts, terms = [], []
+def uf_args(args):
+    """(name suffix, sorts, terms) for uninterpreted-function arguments.  A byte string of concrete length is passed as
+    its individual bytes (plain integer arguments: congruence closure instead of sequence reasoning); a string of symbolic
+    length as one Seq(Int) argument; ints as ints."""
+    sorts, terms, sig = [], [], []
     for a in args:
+        if isinstance(a, SDecStr):
+            a = SInt(a.t)
         if isinstance(a, (bytes, SBytes, str, SStr)):
-            sorts.append(IntSeq)
-            terms.append(ops.as_sseq(a).seq_term())
+            sv = ops.as_sseq(a)
+            if sv.items is not None:
+                sig.append('b%d' % len(sv.items))
+                for x in sv.items:
+                    sorts.append(z3.IntSort())
+                    terms.append(z3.IntVal(x) if isinstance(x, int) else x)
+            else:
+                sig.append('s')
+                sorts.append(IntSeq)
+                terms.append(sv.seq_term())
         elif isinstance(a, (int, SInt, SBool)):
+            sig.append('i')
             sorts.append(z3.IntSort())
             terms.append(int_term(a))
         else:
-            raise Unsupported('argument %r of uninterpreted function %s' % (a, name))
-    f = z3.Function(name, *(sorts + [IntSeq]))
+            raise Unsupported('argument %r of an uninterpreted function' % (a,))
+    return '/'.join(sig), sorts, terms
+
+
+def uf_bytes(ctx, name, args, outlen):
+    """uninterpreted function returning `outlen` bytes (DESIGN §2.7)"""
+    sig, sorts, terms = uf_args(args)
+    ctx.ufs.add(name)
+    if isinstance(outlen, int) and outlen <= 80:
+        # fixed-size output: one integer-valued function per output byte (no sequence terms at all)
+        items = []
+        for i in range(outlen):
+            e = z3.Function('%s<%s>[%d]' % (name, sig, i), *(sorts + [z3.IntSort()]))(*terms)
+            ctx.byte_fact(e)
+            items.append(e)
+        return SBytes(items=items)
+    f = z3.Function('%s<%s>' % (name, sig), *(sorts + [IntSeq]))
     app = f(*terms)
     ctx.couple(app, outlen)
-    ctx.ufs.add(name)
     return SBytes(seq=SeqPart(app, outlen))
 
 
@@ -522,6 +587,8 @@ def call_method(ip, obj, name, args, kwargs):
         return slist_method(ip, obj, name, args, kwargs)
     if isinstance(obj, SymStream):
         return stream_method(ip, obj, name, args, kwargs)
+    if isinstance(obj, SHexNum):
+        return hexnum_method(ip, obj, name, args, kwargs)
     if isinstance(obj, HashObj):
         return hash_method(ip, obj, name, args, kwargs)
     for k, fn in ip.reg.sym_methods.items():
@@ -1163,6 +1230,8 @@ def install_default_models(reg):
     M[ord] = m_ord
     M[isinstance] = m_isinstance
     M[int.from_bytes] = int_from_bytes
+    M[int.to_bytes] = lambda ip, a, k: int_to_bytes(ip, *a, **k)
+    M[hex] = m_hex
     M[print] = lambda ip, a, k: None
     import io
     M[io.BytesIO] = m_bytesio
